@@ -40,6 +40,14 @@ type World struct {
 	NumFns      int
 
 	cg *CallGraph
+
+	// see-through-helper state (reach.go): a stack of parameter substitutions used while a callee is examined in the
+	// caller's terms, and the current inlining depth
+	subst    []map[*ssa.Parameter]string
+	seeDepth int
+	// inlineTrivial: render a call to a trivial unexported helper (one block, `return <expr>`) as that expression
+	inlineTrivial bool
+	inlineDepth   int
 }
 
 // Short strips well-known import path prefixes so that tables stay readable.
